@@ -30,6 +30,39 @@ impl Client {
     pub fn get<U: IntoUrl>(&self, url: U) -> RequestBuilder {
         RequestBuilder { url: url.into_url_string(), headers: header::HeaderMap::new(), timeout: None }
     }
+    pub fn execute(&self, request: Request) -> Pending {
+        RequestBuilder { url: request.url.to_string(), headers: request.headers, timeout: request.timeout }.send()
+    }
+    pub fn builder() -> ClientBuilder {
+        ClientBuilder { _p: () }
+    }
+}
+
+/// `Client::builder()`: the options are accepted and have no effect in the simulated network
+#[derive(Debug, Default)]
+pub struct ClientBuilder {
+    _p: (),
+}
+
+impl ClientBuilder {
+    pub fn new() -> Self {
+        ClientBuilder { _p: () }
+    }
+    pub fn build(self) -> std::result::Result<Client, Error> {
+        Ok(Client::new())
+    }
+    pub fn user_agent<V>(self, _v: V) -> Self {
+        self
+    }
+    pub fn connect_timeout(self, _d: Duration) -> Self {
+        self
+    }
+    pub fn pool_max_idle_per_host(self, _n: usize) -> Self {
+        self
+    }
+    pub fn tcp_nodelay(self, _b: bool) -> Self {
+        self
+    }
 }
 
 pub trait IntoUrl {
@@ -85,19 +118,61 @@ impl RequestBuilder {
         Some(RequestBuilder { url: self.url.clone(), headers: self.headers.clone(), timeout: self.timeout })
     }
     pub fn send(self) -> Pending {
-        Pending { req: Some(self), wait: None, timer: simkit::exec::TimerSlot::new() }
+        Pending { url: self.url.clone(), range: None, req: Some(self), wait: None, timer: simkit::exec::TimerSlot::new() }
+    }
+    pub fn build(self) -> std::result::Result<Request, Error> {
+        let url = Url::parse(&self.url).map_err(|e| Error::new(Kind::Builder, &e.to_string()))?;
+        Ok(Request { method: http::Method::GET, url, headers: self.headers, timeout: self.timeout })
+    }
+}
+
+/// a built request (`RequestBuilder::build`), sent with `Client::execute`
+#[derive(Debug)]
+pub struct Request {
+    method: http::Method,
+    url: Url,
+    headers: header::HeaderMap,
+    timeout: Option<Duration>,
+}
+
+impl Request {
+    pub fn method(&self) -> &http::Method {
+        &self.method
+    }
+    pub fn url(&self) -> &Url {
+        &self.url
+    }
+    pub fn url_mut(&mut self) -> &mut Url {
+        &mut self.url
+    }
+    pub fn headers(&self) -> &header::HeaderMap {
+        &self.headers
+    }
+    pub fn headers_mut(&mut self) -> &mut header::HeaderMap {
+        &mut self.headers
+    }
+    pub fn timeout(&self) -> Option<&Duration> {
+        self.timeout.as_ref()
+    }
+    pub fn timeout_mut(&mut self) -> &mut Option<Duration> {
+        &mut self.timeout
+    }
+    pub fn try_clone(&self) -> Option<Request> {
+        Some(Request { method: self.method.clone(), url: self.url.clone(), headers: self.headers.clone(), timeout: self.timeout })
     }
 }
 
 /// future returned by `send()`
 pub struct Pending {
+    url: String,
+    range: Option<String>,
     req: Option<RequestBuilder>,
     wait: Option<(u64, ResponsePlan, Option<u64>)>,
     timer: simkit::exec::TimerSlot,
 }
 
 impl Future for Pending {
-    type Output = Result<Response, Error>;
+    type Output = std::result::Result<Response, Error>;
     fn poll(mut self: Pin<&mut Self>, cx: &mut Context<'_>) -> Poll<Self::Output> {
         simkit::exec::yield_point();
         if let Some(req) = self.req.take() {
@@ -118,6 +193,7 @@ impl Future for Pending {
                 time_ns: 0,
             };
             let timeout = info.timeout_ns;
+            self.range = info.range.clone();
             let plan = simkit::net::dispatch(info);
             let now = simkit::now_ns();
             let deadline = timeout.map(|t| now.saturating_add(t));
@@ -150,6 +226,21 @@ impl Future for Pending {
             Ok(()) => Poll::Ready(Ok(Response {
                 status: plan.status,
                 content_length: plan.content_length,
+                headers: {
+                    let mut h = header::HeaderMap::new();
+                    if let Some(n) = plan.content_length {
+                        h.insert(header::CONTENT_LENGTH, header::HeaderValue::from(n));
+                    }
+                    if plan.status == 206 {
+                        if let Some(r) = self.range.as_deref().and_then(|r| r.strip_prefix("bytes=")) {
+                            if let Ok(v) = header::HeaderValue::from_str(&format!("bytes {}/*", r)) {
+                                h.insert(header::CONTENT_RANGE, v);
+                            }
+                        }
+                    }
+                    h
+                },
+                url: Url::parse(&self.url).unwrap_or_else(|_| Url::parse("http://invalid.invalid/").unwrap()),
                 body: Body {
                     fragments: plan.fragments.into_iter().collect(),
                     end: plan.end,
@@ -168,6 +259,8 @@ impl Future for Pending {
 pub struct Response {
     status: u16,
     content_length: Option<u64>,
+    headers: header::HeaderMap,
+    url: Url,
     body: Body,
 }
 
@@ -185,7 +278,29 @@ impl Response {
     pub fn status(&self) -> StatusCode {
         StatusCode::from_u16(self.status).unwrap_or(StatusCode::OK)
     }
-    pub async fn bytes(self) -> Result<Bytes, Error> {
+    /// Content-Length (if announced) and, for a 206, the Content-Range the request asked for
+    pub fn headers(&self) -> &header::HeaderMap {
+        &self.headers
+    }
+    pub fn url(&self) -> &Url {
+        &self.url
+    }
+    pub fn error_for_status(self) -> std::result::Result<Self, Error> {
+        if (400..600).contains(&self.status) {
+            Err(Error::new(Kind::Status(self.status), ""))
+        } else {
+            Ok(self)
+        }
+    }
+    pub async fn chunk(&mut self) -> std::result::Result<Option<Bytes>, Error> {
+        let body = &mut self.body;
+        match std::future::poll_fn(|cx| Pin::new(&mut *body).poll_frag(cx)).await {
+            Some(Ok(b)) => Ok(Some(b)),
+            Some(Err(e)) => Err(e),
+            None => Ok(None),
+        }
+    }
+    pub async fn bytes(self) -> std::result::Result<Bytes, Error> {
         let mut body = self.body;
         let mut all = BytesMut::new();
         loop {
@@ -214,7 +329,7 @@ pub struct Body {
 }
 
 impl Body {
-    fn poll_frag(mut self: Pin<&mut Self>, cx: &mut Context<'_>) -> Poll<Option<Result<Bytes, Error>>> {
+    fn poll_frag(mut self: Pin<&mut Self>, cx: &mut Context<'_>) -> Poll<Option<std::result::Result<Bytes, Error>>> {
         simkit::exec::yield_point();
         if self.done {
             return Poll::Ready(None);
@@ -241,7 +356,7 @@ impl Body {
                 if now >= d {
                     self.done = true;
                     simkit::count("http-timeout");
-                    return Poll::Ready(Some(Err(Error::new(Kind::Timeout, "operation timed out"))));
+                    return Poll::Ready(Some(Err(Error::new(Kind::BodyTimeout, "operation timed out"))));
                 }
                 self.timer.arm(d, cx);
                 return Poll::Pending;
@@ -279,7 +394,7 @@ impl Body {
 }
 
 impl futures_core::Stream for Body {
-    type Item = Result<Bytes, Error>;
+    type Item = std::result::Result<Bytes, Error>;
     fn poll_next(self: Pin<&mut Self>, cx: &mut Context<'_>) -> Poll<Option<Self::Item>> {
         self.poll_frag(cx)
     }
@@ -287,28 +402,73 @@ impl futures_core::Stream for Body {
 
 #[derive(Clone, Copy, Debug, PartialEq, Eq)]
 enum Kind {
+    /// the connection could not be made / was lost before a response head arrived
     Connect,
+    /// the transport failed while the body was read
     Body,
+    /// the request's total timeout expired before the response head arrived
     Timeout,
+    /// ... while the body was read
+    BodyTimeout,
+    Status(u16),
+    Builder,
 }
 
+/// Mirrors how reqwest 0.12 classifies errors (src/error.rs, async_impl/decoder.rs, client.rs):
+/// a failure before the response head is `Kind::Request` (`is_request()`, plus `is_connect()`
+/// or `is_timeout()` from its source chain); every error met while the body is read is wrapped
+/// by the decoder as `Kind::Decode` (`is_decode()`; NOT `is_body()`), a body timeout keeping
+/// `is_timeout()` through its source chain.
 pub struct Error {
     kind: Kind,
     msg: String,
+    url: Option<Url>,
 }
 
 impl Error {
     fn new(kind: Kind, msg: &str) -> Self {
-        Error { kind, msg: msg.to_string() }
+        Error { kind, msg: msg.to_string(), url: None }
     }
     pub fn is_timeout(&self) -> bool {
-        self.kind == Kind::Timeout
+        matches!(self.kind, Kind::Timeout | Kind::BodyTimeout)
     }
     pub fn is_connect(&self) -> bool {
         self.kind == Kind::Connect
     }
+    pub fn is_request(&self) -> bool {
+        matches!(self.kind, Kind::Connect | Kind::Timeout)
+    }
     pub fn is_body(&self) -> bool {
-        self.kind == Kind::Body
+        false
+    }
+    pub fn is_decode(&self) -> bool {
+        matches!(self.kind, Kind::Body | Kind::BodyTimeout)
+    }
+    pub fn is_status(&self) -> bool {
+        matches!(self.kind, Kind::Status(_))
+    }
+    pub fn is_builder(&self) -> bool {
+        self.kind == Kind::Builder
+    }
+    pub fn is_redirect(&self) -> bool {
+        false
+    }
+    pub fn status(&self) -> Option<StatusCode> {
+        match self.kind {
+            Kind::Status(c) => StatusCode::from_u16(c).ok(),
+            _ => None,
+        }
+    }
+    pub fn url(&self) -> Option<&Url> {
+        self.url.as_ref()
+    }
+    pub fn without_url(mut self) -> Self {
+        self.url = None;
+        self
+    }
+    pub fn with_url(mut self, url: Url) -> Self {
+        self.url = Some(url);
+        self
     }
 }
 
@@ -322,8 +482,12 @@ impl fmt::Display for Error {
         match self.kind {
             Kind::Connect => write!(f, "error sending request: {}", self.msg),
             Kind::Body => write!(f, "error decoding response body: {}", self.msg),
-            Kind::Timeout => write!(f, "operation timed out"),
+            Kind::Timeout | Kind::BodyTimeout => write!(f, "operation timed out"),
+            Kind::Status(c) => write!(f, "HTTP status error ({})", c),
+            Kind::Builder => write!(f, "builder error: {}", self.msg),
         }
     }
 }
 impl std::error::Error for Error {}
+
+pub type Result<T> = std::result::Result<T, Error>;
